@@ -17,8 +17,8 @@ ID = "C04"
 CASES = {"quick": 900, "thorough": 10000}
 FLOOR = {"quick": 700, "thorough": 8000}
 FLOOR_COUNTERS = {
-    "quick": {"objective_judgments": 2500, "competitors_tried": 20000, "grids_judged": 600, "pca_limit_judged": 400, "regression_limit_judged": 250, "regression_limit_with_surplus_components": 100, "arpack_grids": 60, "randomized_grids": 60},
-    "thorough": {"objective_judgments": 30000, "competitors_tried": 250000, "grids_judged": 7000, "pca_limit_judged": 5000, "regression_limit_judged": 3000, "regression_limit_with_surplus_components": 1200, "arpack_grids": 800, "randomized_grids": 800},
+    "quick": {"fits_through_fit_transform": 400, "configured_not_by_constructor": 400, "non_default_containers": 400, "objective_judgments": 2500, "competitors_tried": 20000, "grids_judged": 600, "pca_limit_judged": 400, "regression_limit_judged": 250, "regression_limit_with_surplus_components": 100, "arpack_grids": 60, "randomized_grids": 60},
+    "thorough": {"fits_through_fit_transform": 5000, "configured_not_by_constructor": 5000, "non_default_containers": 5000, "objective_judgments": 30000, "competitors_tried": 250000, "grids_judged": 7000, "pca_limit_judged": 5000, "regression_limit_judged": 3000, "regression_limit_with_surplus_components": 1200, "arpack_grids": 800, "randomized_grids": 800},
 }
 RULE = (
     "case = centred X, Y (1-3 targets), k, space, a grid of 9 mixings from 0 to 1 (exact least-squares regressor) plus "
@@ -40,6 +40,7 @@ def gen(rng, tier, index):
     rank = int(np.linalg.matrix_rank(X))
     k = int(rng.integers(1, max(1, rank) + 1))
     return {
+        "routes": pc.routes(rng),
         "X": X,
         "Y": Y,
         "kind": kind,
@@ -99,6 +100,7 @@ def _judge_objective(j, rng, a, X, Yh, T, k, label):
 
 
 def run(case, j):
+    pc.use_routes(j, case)
     from sklearn.decomposition import PCA
     from sklearn.linear_model import LinearRegression
 
